@@ -93,6 +93,9 @@ class DeRun:
             return True
         if name == 'branch' and c.get('trait') == 'std::ops::Try':
             v = fr.operand(args[0])
+            if isinstance(v, exp.Opt) and v.tag in ('some', 'none'):
+                # a decided Result (built by a modelled combinator or collection): the standard model propagates it
+                return stdmodel.result_transfer(I, fr, t, c, pth)
             fr.storev(dest, Opt(None, ('try', v), ('try', v if isinstance(v, tuple) else repr(v), where)))
             return True
         if name == 'from_residual':
@@ -205,6 +208,32 @@ def _serdes_interp(fx, M):
     return I
 
 
+used_unchecked = set()      # deserializers that use an unchecked decoder and validate its result (filled by the rule)
+
+
+def validated_unchecked_callers(fx):
+    """Deserializers that call an unchecked decoder and are decided (by the deserializer tables) to apply the membership
+    predicate to its result on every accepting path."""
+    from props import c15
+    used_unchecked.clear()
+    sink = c15.core_report_sink()
+    failed = set()
+
+    class Rec:
+        def __getattr__(self, k):
+            return getattr(sink, k)
+
+        def check(self, ok, *a, **kw):
+            if not ok and kw.get('construct'):
+                failed.add(kw['construct'])
+
+        def fail(self, *a, **kw):
+            if kw.get('construct'):
+                failed.add(kw['construct'])
+    rule_point_deserializers(fx, Rec())
+    return set(used_unchecked) - failed
+
+
 def rule_point_deserializers(fx, rep):
     """Per point type and per (bit 7 of the first stream byte, `compressed` argument): what is read, what is decoded and what is
     returned, decided over a byte-provenance model of the buffers (serdesmodel.py)."""
@@ -271,20 +300,28 @@ def rule_point_deserializers(fx, rep):
                     bad.append('%d decoder calls' % len(decs))
                     continue
                 _, dname, dty, data, dwhere = decs[0]
-                if dname != 'into_affine':
+                # the unchecked decoder may be used when the membership predicate is applied to its result before it is
+                # returned: Ok exactly when the decoder accepts and in_subgroup() holds
+                val_labs = [l for l in labs if l[0] == 'validated']
+                validated = bool(val_labs and val_labs[-1][1])
+                if dname != 'into_affine' and val_labs:
+                    used_unchecked.add(path)
+                if dname != 'into_affine' and not (validated or (val_labs and not val_labs[-1][1]) or (dec_labs and dec_labs[-1][1])):
                     bad.append('uses the UNCHECKED decoder %s::%s at %s: curve and subgroup checks are skipped' % (dty, dname, dwhere))
                 if dty != want_ty:
                     bad.append('decodes as %s, expected %s' % (dty, want_ty))
                 if not (data is not None and len(data) == want_n and all(isinstance(x, SM.SByte) and x.idx == k for k, x in enumerate(data))):
                     bad.append('decoder input is not exactly the %d stream bytes in order: %r' % (want_n, (data or [])[:4]))
                 dec_err = bool(dec_labs and dec_labs[-1][1])
+                if dname != 'into_affine' and val_labs and not validated:
+                    dec_err = True          # the point failed the membership predicate
                 if dec_err != (oc == 'Err'):
                     bad.append('decoder result %s mapped to %s' % ('Err' if dec_err else 'Ok', oc))
                 if oc == 'Ok':
                     oks += 1
                     inner = r[1]
-                    want_inner = ('proj', ('decoded', want_ty, 'into_affine')) if projective else ('decoded', want_ty, 'into_affine')
-                    if inner != want_inner and dname == 'into_affine':
+                    want_inner = ('proj', ('decoded', want_ty, dname)) if projective else ('decoded', want_ty, dname)
+                    if inner != want_inner:
                         bad.append('Ok carries %r' % (inner,))
             if b7 == comp and oks != 1:
                 bad.append('%d success paths' % oks)
